@@ -95,6 +95,8 @@ def _run(args):
     try:
         ctx = Ctx(prop, "quick", overlay=overlay)
         mod.check(ctx)
+        if ctx.declined and not ctx.findings:
+            return ("analysis-error", "; ".join(f"{why} [{name}]" for name, why in ctx.declined))
         return ("ok", [(f.rule, f.key, f.message, f.file, f.line) for f in ctx.findings])
     except AnalysisError as e:
         return ("analysis-error", str(e))
